@@ -365,6 +365,10 @@ pub fn replay_behaviour(idx: usize, beh: &Value, shards: usize, cap: usize, focu
                     // a failed owned merge must leave both tracks stored
                     report(rep, "proj:ids:failed-owned-merge".into(), det);
                     return;
+                } else if existed && jget(sproj, "ids") != jget(&proj, "ids") && sret == "err" {
+                    // a failed add to a stored track leaves the track as it was - stored, in particular
+                    report(rep, "proj:ids:failed-add".into(), det);
+                    return;
                 }
                 rep.count("abandoned_outside_focus", 1);
                 return;
